@@ -229,6 +229,11 @@ def run(rep):
     dist = {m: 0 for m in modes}
     steps_total = 0
     distinct = 0
+    with warnings.catch_warnings():
+        warnings.simplefilter('ignore')
+        # some other cache of this process runs into its memory limit first: that must stay its own business
+        decoy = lazy_dataset.new([1, 2, 3]).cache(keep_mem_free='1000000 TB')
+        list(decoy)
     try:
         for i in range(nh):
             mode = modes[i % len(modes)] if i % 13 else rng.choice(modes)
